@@ -1,6 +1,6 @@
 """C09 - encoder is total: returns or raises EncoderError, always terminates."""
 from vmon import env, hooks, scopes, tablegen
-from vmon.hooks import MON
+from vmon.hooks import MON, call_guard
 from vmon.hostile import hostile_smiles
 from vmon.molgen import random_tree_mol, spell
 from vmon.aromgen import standard_system, union, link_systems, benzenoid_system
@@ -38,6 +38,7 @@ def floors(tier):
 def run(ctx):
     sf = env.varied(env.load_selfies(), ctx)
     hooks.attach_m4()
+    hooks.attach_m4b()
     rng = ctx.rng
     quick = ctx.tier == "quick"
     T = Totality(ctx, "encoder")
@@ -61,8 +62,19 @@ def run(ctx):
                 cls, x = "aromatic-large", spell(m, rng)[0]
             elif i % 12 == 11 and i % 600 == 35:
                 # scale: the same polycyclic fragment hundreds of times in one input (hundreds of matching searches in one call)
-                m, kind_of, ae = benzenoid_system(rng, rng.choice([4, 5, 6, 8]))
-                cls, x = "aromatic-replicated", ".".join([spell(m, rng, variants=False)[0]] * rng.choice([260, 300, 420]))
+                # (the search counter M4b steers the choice: a fragment whose greedy matching is not perfect)
+                frag = None
+                for _ in range(60):
+                    m, kind_of, ae = benzenoid_system(rng, rng.choice([4, 5, 6, 8]))
+                    cand = spell(m, rng, variants=False)[0]
+                    b4 = MON.counts.get("M4b.augmenting_path_searches", 0)
+                    ok1 = call_guard(lambda: sf.encoder(cand, strict=False), expected=(sf.EncoderError,))
+                    frag = frag or cand
+                    if ok1[0] == "ok" and MON.counts.get("M4b.augmenting_path_searches", 0) > b4:
+                        frag = cand
+                        ctx.count("replicated_fragment_needs_search")
+                        break
+                cls, x = "aromatic-replicated", ".".join([frag] * rng.choice([260, 300, 420]))
             elif i % 12 == 11:
                 m, kind_of, ae = standard_system(rng, sizes=(3, 4, 5, 6, 7))
                 cls, x = "aromatic", spell(m, rng)[0]
